@@ -2,7 +2,10 @@ module htsim
 
 go 1.26.8
 
-require github.com/honeytrap/honeytrap v0.0.0
+require (
+	github.com/honeytrap/honeytrap v0.0.0
+	golang.org/x/crypto v0.0.0-20200128174031-69ecbb4d6d5d
+)
 
 require (
 	github.com/AndreasBriese/bbloom v0.0.0-20170702084017-28f7e881ca57 // indirect
@@ -47,7 +50,6 @@ require (
 	github.com/songgao/water v0.0.0-20180221190335-75f112d19d5a // indirect
 	github.com/streadway/amqp v0.0.0-20180315184602-8e4aba63da9f // indirect
 	github.com/yuin/gopher-lua v0.0.0-20190206043414-8bfc7677f583 // indirect
-	golang.org/x/crypto v0.0.0-20200128174031-69ecbb4d6d5d // indirect
 	golang.org/x/net v0.0.0-20190404232315-eb5bcb51f2a3 // indirect
 	golang.org/x/sys v0.0.0-20200202164722-d101bd2416d5 // indirect
 	golang.org/x/time v0.0.0-20191024005414-555d28b269f0 // indirect
